@@ -83,7 +83,7 @@ def run(chk):
                     pan.append((bb, t["msg"]["kind"]))
                 if t and t["k"] == "call" and panics.site_kind(t) in ("unwrap", "panic", "index", "split_at", "copy", "garray", "vecop"):
                     pan.append((bb, core.callee_of(t)))
-            oks = [s for s in flow.outcome_sites(mc) if s["bb"] in after and s["kind"] == "Ok"]
+            oks = [b3 for b3 in flow.ok_sites(p, mc, Tm) if b3 in after]
             site = where(mc, sv.call_bb)
             chk.ob("R1 save is the last fallible step", "R1|make_credential|no-error-after-save", not errs, where(mc, errs[0]["bb"]) if errs else site,
                    "Err returns reachable after the save succeeded: %d" % len(errs))
@@ -91,7 +91,7 @@ def run(chk):
                    "suspension points reachable after the save completed: %s" % ylds)
             chk.ob("R1 save is the last fallible step", "R1|make_credential|no-panic-after-save", not pan, where(mc, pan[0][0]) if pan else site,
                    "panic sites after the save: %s" % [short(str(x[1])) for x in pan])
-            chk.ob("R1 save is the last fallible step", "R1|make_credential|ok-after-save", len(oks) >= 1 and flow.cut_by_edges(mc, 0, [o["bb"] for o in flow.outcome_sites(mc) if o["kind"] == "Ok"], ok_edges),
+            chk.ob("R1 save is the last fallible step", "R1|make_credential|ok-after-save", len(oks) >= 1 and flow.cut_by_edges(mc, 0, flow.ok_sites(p, mc, Tm), ok_edges),
                    site, "every Ok return passes the success edge of the save")
 
     # ---------------- R2
@@ -183,7 +183,7 @@ def run(chk):
     du = flow.DefUse(ga)
     aws = flow.awaits(ga)
     ups = [a for a in aws if a.call is not None and names.call_is(a.call, "CredentialStore::update_credential")]
-    oks = [s["bb"] for s in flow.outcome_sites(ga) if s["kind"] == "Ok" and s["path"] == ()]
+    oks = flow.ok_sites(p, ga)
     if chk.require("R5 counter accepted before response", "R5|update", len(ups) == 1 and oks, where(ga), "update_credential await / Ok return not found"):
         from .common import accepted_counter_cut
         cut, upd_ok, no_counter = accepted_counter_cut(p, ga)
